@@ -359,6 +359,9 @@ class Undef:
 @reg("numpy.zeros")
 def _zeros(eng, node, shape, dtype=None):
     shape = (shape,) if isinstance(shape, int) else tuple(shape)
+    if len(shape) == 2 and isinstance(shape[0], int) and is_sym(shape[1]):
+        from .types import SMat
+        return SMat(shape[0], shape[1], [z3.K(z3.IntSort(), z3.RealVal(0)) for _ in range(shape[0])])
     if not all(isinstance(s, int) for s in shape):
         raise Unsupported("zeros with symbolic shape")
     n = 1
